@@ -204,10 +204,10 @@ class Sym(object):
         isd = [And(c >= 48, c <= 57) if not isinstance(c, int) else (48 <= c <= 57) for c in a.c]
         return mkbool(Or(*[And(i + k <= a.n, *isd[i:i + k]) for i in range(a.m - k + 1)]))
 
-    def symbolic_fs(self, entries):
+    def symbolic_fs(self, entries, root_name="root"):
         """entries: {relative path: text (file) | None (directory)}; returns (root path, {relative path: exists?})"""
         from . import stubs
-        root = "/psx-symfs"
+        root = "/psx-symfs/" + root_name
         bits = {}
         cons = []
         for i, rel in enumerate(sorted(entries)):
